@@ -307,8 +307,11 @@ static __always_inline int extract_circuit_id_fixed(void *dhcp_base,
 			/* Parse sub-option 1 (circuit-id) at start of Option 82 */
 			if (opts[5] == 1) {
 				__u8 cid_len = opts[6];
-				/* Bounds check: cid_len must fit in destination buffer */
+				/* Bounds check: cid_len must fit in destination buffer and the
+				 * sub-option must lie inside Option 82 (the slow path finds no
+				 * circuit-ID in an option whose sub-option overruns it) */
 				if (cid_len > 0 && cid_len <= CIRCUIT_ID_KEY_LEN &&
+				    cid_len + 2 <= opt82_len &&
 				    (void *)(opts + 7 + cid_len) <= data_end) {
 					#pragma unroll
 					for (int i = 0; i < CIRCUIT_ID_KEY_LEN; i++) {
@@ -326,10 +329,15 @@ static __always_inline int extract_circuit_id_fixed(void *dhcp_base,
 	for (int pos = 12; pos < 20; pos++) {
 		if (opts[pos] == 82 && (void *)(opts + pos + 8) <= data_end) {
 			__u8 opt82_len = opts[pos + 1];
-			if (opt82_len >= 4 && opts[pos + 2] == 1) {
+			/* Option 82 must lie inside the packet (as checked at position 3
+			 * above): the slow path drops a request whose option overruns it */
+			if (opt82_len >= 4 && opts[pos + 2] == 1 &&
+			    (void *)(opts + pos + 2 + opt82_len) <= data_end) {
 				__u8 cid_len = opts[pos + 3];
-				/* Bounds check: cid_len must fit in destination buffer */
+				/* Bounds check: cid_len must fit in destination buffer and the
+				 * sub-option must lie inside Option 82 */
 				if (cid_len > 0 && cid_len <= CIRCUIT_ID_KEY_LEN &&
+				    cid_len + 2 <= opt82_len &&
 				    (void *)(opts + pos + 4 + cid_len) <= data_end) {
 					#pragma unroll
 					for (int i = 0; i < CIRCUIT_ID_KEY_LEN; i++) {
